@@ -216,7 +216,8 @@ class ORToolsSolver(BaseSolver):
             0, instance.total_duration, "makespan"
         )
         end_times = [end for _, end in self._operations_start.values()]
-        self.model.AddMaxEquality(self._makespan, end_times)
+        if end_times:
+            self.model.AddMaxEquality(self._makespan, end_times)
         self.model.Minimize(self._makespan)
 
     def _add_job_constraints(self, instance: JobShopInstance):
